@@ -10,9 +10,9 @@ LEAN_MODULES = ["QbiceVerif.Props.C03"]
 DRIVER = "drv_engine"
 HARNESS_BIN = "engine"
 PARTIAL = [
-    "exec_justified_core / exec_once_per_epoch_core: proved for the core model (input + normal queries). For "
-    "firewall/projection/external nodes the justification rule is enforced by the harness oracle on the "
-    "implementation and by stream equality with the full model (executor-invocation multisets per op).",
+    "core_exec_justified / core_exec_once / core_rounds_exec_once / core_*_executes_nothing are proved in full for the "
+    "core model (input + normal queries). For firewall / projection / external nodes the justification rule is enforced "
+    "by the harness oracle on the implementation and by equality of executor-invocation multisets with the full model.",
 ]
 ASSUMPTIONS = c01.ASSUMPTIONS + ["no cancellation (the property excludes it)"]
 TRUSTED_EXTRA = c01.TRUSTED_EXTRA
